@@ -424,6 +424,99 @@ theorem ray_ellipsoid_miss (pos : V3 ℝ) (mat : M33 ℝ) (size pnt vec : V3 ℝ
   have := ray_quad_neg _ _ _ h
   rw [this]
 
+/-! ### 6. `ray_box`
+  The code first requires a hit of the bounding sphere (radius² = size·size), then tests, for every axis `i`
+  with `|lvec_i| > MJ_MINVAL`, the two faces `p_i = ∓size_i`: candidate `sol = (∓size_i - lpnt_i)/lvec_i`
+  is accepted when `sol ≥ 0` and the other two coordinates satisfy `|p_j| ≤ size_j` (exact comparison, no
+  tolerance); the smallest accepted candidate wins. -/
+
+/-- (6a) **hit on surface + normal**: if `ray_box` returns `x ≥ 0`, the local hit point `p = lpnt + x·lvec`
+    lies on a face: for some sign `s = ∓1` and some axis `i`, `p_i = s·size_i` and `|p_j| ≤ size_j` for the
+    other two axes, and the returned normal is the signed axis `mat·(s·e_i)`. -/
+theorem ray_box_hit_on_surface (pos : V3 ℝ) (mat : M33 ℝ) (size pnt vec : V3 ℝ) :
+    let l := _ray_map pos mat pnt vec
+    let r := ray_box pos mat size pnt vec
+    let p := rayPt l.1 l.2 r.1
+    0 ≤ r.1 →
+      ∃ s : ℝ, (s = -1 ∨ s = 1) ∧
+        ((p.c0 = s * size.c0 ∧ |p.c1| ≤ size.c1 ∧ |p.c2| ≤ size.c2 ∧ r.2.2 = M33.mulVec mat ⟨s, 0, 0⟩) ∨
+         (p.c1 = s * size.c1 ∧ |p.c0| ≤ size.c0 ∧ |p.c2| ≤ size.c2 ∧ r.2.2 = M33.mulVec mat ⟨0, s, 0⟩) ∨
+         (p.c2 = s * size.c2 ∧ |p.c0| ≤ size.c0 ∧ |p.c1| ≤ size.c1 ∧ r.2.2 = M33.mulVec mat ⟨0, 0, s⟩)) := by
+  obtain ⟨lp, lv, hl⟩ : ∃ lp lv, _ray_map pos mat pnt vec = (lp, lv) := ⟨_, _, rfl⟩
+  have hspec := ray_box_spec pos mat size pnt vec
+  rw [hl] at hspec ⊢
+  dsimp only at hspec ⊢
+  rcases hspec with ⟨-, hr⟩ | ⟨-, x, fa, fs, all, hr, -, hI, -⟩
+  · rw [hr]; intro h0; norm_num at h0
+  · rw [hr]
+    dsimp only
+    intro h0
+    obtain ⟨hs, hface⟩ := hI h0
+    simp only [rayPt, V3.add, V3.muls, hadd, hmul, mul_comm lv.c0 x, mul_comm lv.c1 x, mul_comm lv.c2 x]
+    refine ⟨(fs : ℝ), ?_, ?_⟩
+    · rcases hs with h | h <;> rw [h] <;> norm_num
+    · rcases hface with ⟨hfa, -, he, hb0, hb1⟩ | ⟨hfa, -, he, hb0, hb1⟩ | ⟨hfa, -, he, hb0, hb1⟩
+      · left
+        refine ⟨he, hb0, hb1, ?_⟩
+        simp [boxNormal, h0, hfa, V3.set, V3.zero, V3.fill]
+      · right; left
+        refine ⟨he, hb0, hb1, ?_⟩
+        simp [boxNormal, h0, hfa, V3.set, V3.zero, V3.fill]
+      · right; right
+        refine ⟨he, hb0, hb1, ?_⟩
+        simp [boxNormal, h0, hfa, V3.set, V3.zero, V3.fill]
+
+/-- (6b) **nearest + completeness** relative to the faces the code tests: let `t ≥ 0` be any ray parameter
+    at which the ray meets a face `q_i = ∓size_i`, `|q_j| ≤ size_j (j ≠ i)` of an axis with
+    `|lvec_i| > MJ_MINVAL`.  If the bounding-sphere pre-test passes, `ray_box` reports a hit `x` with
+    `0 ≤ x ≤ t`.  (Faces of an axis with `|lvec_i| ≤ MJ_MINVAL` are skipped by the code, and a ray whose
+    bounding-sphere discriminant is `< MJ_MINVAL` is rejected: these two tolerances are the only gap to
+    "nearest intersection with the box surface".) -/
+theorem ray_box_nearest (pos : V3 ℝ) (mat : M33 ℝ) (size pnt vec : V3 ℝ) (t : ℝ) :
+    let l := _ray_map pos mat pnt vec
+    let r := ray_box pos mat size pnt vec
+    let q := rayPt l.1 l.2 t
+    0 ≤ (ray_sphere pos (V3.dot size size) pnt vec).1 → 0 ≤ t →
+    ((minval < |l.2.c0| ∧ (q.c0 = -size.c0 ∨ q.c0 = size.c0) ∧ |q.c1| ≤ size.c1 ∧ |q.c2| ≤ size.c2) ∨
+     (minval < |l.2.c1| ∧ (q.c1 = -size.c1 ∨ q.c1 = size.c1) ∧ |q.c0| ≤ size.c0 ∧ |q.c2| ≤ size.c2) ∨
+     (minval < |l.2.c2| ∧ (q.c2 = -size.c2 ∨ q.c2 = size.c2) ∧ |q.c0| ≤ size.c0 ∧ |q.c1| ≤ size.c1)) →
+    0 ≤ r.1 ∧ r.1 ≤ t := by
+  obtain ⟨lp, lv, hl⟩ : ∃ lp lv, _ray_map pos mat pnt vec = (lp, lv) := ⟨_, _, rfl⟩
+  have hspec := ray_box_spec pos mat size pnt vec
+  rw [hl] at hspec ⊢
+  dsimp only at hspec ⊢
+  intro hsph ht hq
+  rcases hspec with ⟨hneg, -⟩ | ⟨-, x, fa, fs, all, hr, -, -, hC⟩
+  · exact absurd hsph (not_le.mpr hneg)
+  · rw [hr]
+    dsimp only
+    apply hC t
+    simp only [rayPt, V3.add, V3.muls, hadd, hmul, mul_comm lv.c0 t, mul_comm lv.c1 t, mul_comm lv.c2 t] at hq
+    unfold BoxCand FaceCand
+    rcases hq with ⟨hg, he | he, hb0, hb1⟩ | ⟨hg, he | he, hb0, hb1⟩ | ⟨hg, he | he, hb0, hb1⟩
+    · left; exact ⟨hg, Or.inl ⟨ht, by rw [he]; push_cast; ring, hb0, hb1⟩⟩
+    · left; exact ⟨hg, Or.inr ⟨ht, by rw [he]; push_cast; ring, hb0, hb1⟩⟩
+    · right; left; exact ⟨hg, Or.inl ⟨ht, by rw [he]; push_cast; ring, hb0, hb1⟩⟩
+    · right; left; exact ⟨hg, Or.inr ⟨ht, by rw [he]; push_cast; ring, hb0, hb1⟩⟩
+    · right; right; exact ⟨hg, Or.inl ⟨ht, by rw [he]; push_cast; ring, hb0, hb1⟩⟩
+    · right; right; exact ⟨hg, Or.inr ⟨ht, by rw [he]; push_cast; ring, hb0, hb1⟩⟩
+
+/-- (6c) **miss**: a negative result is exactly `-1` with zero normal. -/
+theorem ray_box_miss (pos : V3 ℝ) (mat : M33 ℝ) (size pnt vec : V3 ℝ) :
+    let r := ray_box pos mat size pnt vec
+    r.1 < 0 → r.1 = -1 ∧ r.2.2 = V3.zero := by
+  have hspec := ray_box_spec pos mat size pnt vec
+  rcases hspec with ⟨-, hr⟩ | ⟨-, x, fa, fs, all, hr, hx, -, -⟩
+  · rw [hr]; dsimp only; intro _; exact ⟨rfl, rfl⟩
+  · rw [hr]
+    dsimp only
+    intro h0
+    rcases hx with hx | hx
+    · subst hx
+      refine ⟨rfl, ?_⟩
+      simp [boxNormal]
+    · exact absurd hx (not_le.mpr h0)
+
 /-! ### 8. `ray_cylinder`, `ray_capsule`
   `size.c0` = radius, `size.c1` = half-height, axis = local z. -/
 
@@ -469,5 +562,173 @@ theorem ray_cylinder_hit_on_surface_partial (pos : V3 ℝ) (mat : M33 ℝ) (size
     · right; right
       refine ⟨hside, hzz, ?_⟩
       simp [cylNormal, h0, hp, V3.add, V3.muls, mul_comm]
+
+/-- (8b) a negative `ray_cylinder` result is exactly `(-1, 0)`. -/
+theorem ray_cylinder_miss (pos : V3 ℝ) (mat : M33 ℝ) (size pnt vec : V3 ℝ) :
+    (ray_cylinder pos mat size pnt vec).1 < 0 → ray_cylinder pos mat size pnt vec = (-1, V3.zero) := by
+  obtain ⟨lp, lv, hl⟩ : ∃ lp lv, _ray_map pos mat pnt vec = (lp, lv) := ⟨_, _, rfl⟩
+  have hr := ray_cylinder_eq pos mat size pnt vec
+  rw [hl] at hr
+  dsimp only at hr
+  have hinv := cylSide_inv lp lv size _ _ (cylCaps_inv lp lv size)
+  set s := cylSide lp lv size (cylCaps lp lv size).2.2.1 (cylCaps lp lv size).2.2.2 with hs
+  obtain ⟨x, part⟩ := s
+  rw [hr]
+  simp only [slt, lit_zero, lit_neg_one]
+  split_ifs with hd
+  · intro _; rfl
+  · dsimp only at hinv ⊢
+    intro h0
+    rcases hinv with (⟨hx, -⟩ | ⟨hx, -⟩) | ⟨hx, -⟩
+    · subst hx; simp [cylNormal]
+    · exact absurd hx (not_le.mpr h0)
+    · exact absurd hx (not_le.mpr h0)
+
+/-- (8c) PARTIAL (soundness of a reported hit; nearest-ness is not proved).
+    If `ray_capsule` returns `x ≥ 0`, the local hit point `p = lpnt + x·lvec` lies on the capsule surface:
+    on the cylinder side (`p.x² + p.y² = r²`, `|p.z| ≤ h`, normal `mat·normalize(p.x, p.y, 0)`), on the top
+    hemisphere (`|p - (0,0,h)|² = r²`, `p.z ≥ h`, normal `mat·normalize(p - (0,0,h))`) or on the bottom
+    hemisphere (`|p + (0,0,h)|² = r²`, `p.z ≤ -h`, normal `mat·normalize(p + (0,0,h))`).
+    Full statement wanted: additionally `∀ t ≥ 0` with `lpnt + t·lvec` on the surface, `x ≤ t`. -/
+theorem ray_capsule_hit_on_surface_partial (pos : V3 ℝ) (mat : M33 ℝ) (size pnt vec : V3 ℝ) :
+    let l := _ray_map pos mat pnt vec
+    let r := ray_capsule pos mat size pnt vec
+    let p := rayPt l.1 l.2 r.1
+    0 ≤ r.1 →
+      (p.c0 * p.c0 + p.c1 * p.c1 = size.c0 * size.c0 ∧ |p.c2| ≤ size.c1 ∧
+          r.2 = M33.mulVec mat (V3.normalize ⟨p.c0, p.c1, 0⟩)) ∨
+      (p.c0 * p.c0 + p.c1 * p.c1 + (p.c2 - size.c1) * (p.c2 - size.c1) = size.c0 * size.c0 ∧
+          size.c1 ≤ p.c2 ∧ r.2 = M33.mulVec mat (V3.normalize ⟨p.c0, p.c1, p.c2 - size.c1⟩)) ∨
+      (p.c0 * p.c0 + p.c1 * p.c1 + (p.c2 + size.c1) * (p.c2 + size.c1) = size.c0 * size.c0 ∧
+          p.c2 ≤ -size.c1 ∧ r.2 = M33.mulVec mat (V3.normalize ⟨p.c0, p.c1, p.c2 + size.c1⟩)) := by
+  obtain ⟨lp, lv, hl⟩ : ∃ lp lv, _ray_map pos mat pnt vec = (lp, lv) := ⟨_, _, rfl⟩
+  have hspec := ray_capsule_spec pos mat size pnt vec
+  rw [hl] at hspec ⊢
+  dsimp only at hspec ⊢
+  rcases hspec with ⟨-, hr⟩ | ⟨-, x, part, hr, -, hI⟩
+  · rw [hr]; intro h0; norm_num at h0
+  · rw [hr]
+    dsimp only
+    intro h0
+    simp only [rayPt, V3.add, V3.muls, hadd, hmul, mul_comm lv.c0 x, mul_comm lv.c1 x, mul_comm lv.c2 x]
+    rcases hI h0 with ⟨hp, he, hz⟩ | ⟨hp, he, hz⟩ | ⟨hp, he, hz⟩
+    · left
+      refine ⟨he, hz, ?_⟩
+      simp [capsNormal, h0, hp, mul_comm]
+    · right; left
+      refine ⟨he, hz, ?_⟩
+      simp [capsNormal, h0, hp, mul_comm]
+    · right; right
+      refine ⟨he, hz, ?_⟩
+      simp [capsNormal, h0, hp, mul_comm]
+
+/-- (8d) a negative `ray_capsule` result is exactly `(-1, 0)`. -/
+theorem ray_capsule_miss (pos : V3 ℝ) (mat : M33 ℝ) (size pnt vec : V3 ℝ) :
+    (ray_capsule pos mat size pnt vec).1 < 0 → ray_capsule pos mat size pnt vec = (-1, V3.zero) := by
+  rcases ray_capsule_spec pos mat size pnt vec with ⟨-, hr⟩ | ⟨-, x, part, hr, hx, -⟩
+  · intro _; exact hr
+  · rw [hr]
+    dsimp only
+    intro h0
+    rcases hx with hx | hx
+    · subst hx; simp [capsNormal]
+    · exact absurd hx (not_le.mpr h0)
+
+/-! ### `ray_geom` (dispatch) and `_ray_triangle` -/
+
+/-- `ray_geom` dispatches on the geom type: 0 plane, 2 sphere (radius² = size₀²), 3 capsule, 4 ellipsoid,
+    5 cylinder, 6 box (distance and normal of `ray_box`), anything else: no hit. -/
+theorem ray_geom_dispatch (pos : V3 ℝ) (mat : M33 ℝ) (size pnt vec : V3 ℝ) (g : Int) :
+    ray_geom pos mat size pnt vec g =
+      if g = 0 then ray_plane pos mat size pnt vec
+      else if g = 2 then ray_sphere pos (size.c0 * size.c0) pnt vec
+      else if g = 3 then ray_capsule pos mat size pnt vec
+      else if g = 4 then ray_ellipsoid pos mat size pnt vec
+      else if g = 5 then ray_cylinder pos mat size pnt vec
+      else if g = 6 then ((ray_box pos mat size pnt vec).1, (ray_box pos mat size pnt vec).2.2)
+      else (-1, V3.zero) := by
+  simp only [ray_geom, decide_eq_true_eq, hmul, lit_neg_one]
+
+/-- "no hit = -1": for every geom type, a negative `ray_geom` distance is exactly `-1` and comes with the
+    zero normal. -/
+theorem ray_geom_miss (pos : V3 ℝ) (mat : M33 ℝ) (size pnt vec : V3 ℝ) (g : Int) :
+    (ray_geom pos mat size pnt vec g).1 < 0 → ray_geom pos mat size pnt vec g = (-1, V3.zero) := by
+  rw [ray_geom_dispatch]
+  split_ifs
+  · exact ray_plane_miss pos mat size pnt vec
+  · intro h; exact (ray_sphere_miss pos _ pnt vec h).1
+  · exact ray_capsule_miss pos mat size pnt vec
+  · exact ray_ellipsoid_miss pos mat size pnt vec
+  · exact ray_cylinder_miss pos mat size pnt vec
+  · intro h
+    obtain ⟨h1, h2⟩ := ray_box_miss pos mat size pnt vec h
+    exact Prod.ext h1 h2
+  · intro _; rfl
+
+/-- `_ray_triangle`, PARTIAL: if it returns a distance `d ≥ 0` then the ray is not parallel to the triangle's
+    plane (`|vec·nrm| ≥ MJ_MINVAL`, `nrm = (v0-v2)×(v1-v2)`), the hit point `pnt + d·vec` lies in that plane,
+    and the returned normal is `normalize nrm`.
+    Full statement wanted: for `b0, b1` an orthonormal basis of `vec⊥` the hit point is
+    `v2 + t0·(v0-v2) + t1·(v1-v2)` with `t0, t1 ≥ 0`, `t0 + t1 ≤ 1` (inside the triangle); not proved. -/
+theorem ray_triangle_hit_in_plane_partial (v0 v1 v2 pnt vec b0 b1 : V3 ℝ) :
+    let r := _ray_triangle v0 v1 v2 pnt vec b0 b1
+    let nrm := V3.cross (V3.sub v0 v2) (V3.sub v1 v2)
+    0 ≤ r.1 →
+      minval ≤ |V3.dot vec nrm| ∧ V3.dot (V3.sub (rayPt pnt vec r.1) v2) nrm = 0 ∧
+      r.2 = V3.normalize nrm := by
+  dsimp only
+  unfold _ray_triangle
+  simp only [sgt, slt, sge, sabs, lit_zero, lit_one, lit_neg_one, lit_minval', Bool.or_eq_true, Bool.and_eq_true,
+    hneg, hdiv]
+  split_ifs with h1 h2 h3 h4 h5
+  all_goals try (intro h0; norm_num at h0; done)
+  · intro _
+    rw [not_lt] at h4
+    refine ⟨h4, ?_, rfl⟩
+    have hne : V3.dot vec (V3.cross (V3.sub v0 v2) (V3.sub v1 v2)) ≠ 0 := by
+      intro h; rw [h, abs_zero] at h4; linarith [minval_pos]
+    generalize V3.cross (V3.sub v0 v2) (V3.sub v1 v2) = n at hne ⊢
+    have hlin : ∀ t : ℝ, V3.dot (V3.sub (rayPt pnt vec t) v2) n = V3.dot (V3.sub pnt v2) n + t * V3.dot vec n := by
+      intro t
+      simp only [V3.dot, V3.sub, rayPt, V3.add, V3.muls, hadd, hsub, hmul]
+      ring
+    rw [hlin]
+    field_simp
+    ring
+
+/-! ### non-vacuity: concrete rays meeting the hypotheses `0 ≤ r.1` of the theorems above -/
+
+example : (0 : ℝ) < 1 ∧ minval ≤ (-2 : ℝ) * (-2) - 1 * 3 := by norm_num [minval]
+
+example : ray_ellipsoid (⟨0, 0, 0⟩ : V3 ℝ) M33.identity ⟨1, 2, 3⟩ ⟨-3, 0, 0⟩ ⟨1, 0, 0⟩ = (2, ⟨-1, 0, 0⟩) := by
+  rw [ray_ellipsoid_eq]
+  norm_num [ray_quad_eq, ellScale, Mjw.Gen.Math.safe_div_F_F, _ray_map, M33.mulVec,
+    M33.transpose, M33.identity, V3.sub, V3.dot, V3.cwmul, rayPt, V3.add, V3.muls, V3.normalize, V3.length,
+    V3.zero, V3.fill, minval]
+
+/-- box with half-sizes (1,2,2): the ray from (-5,0,0) along +x hits the face x = -1 at distance 4 -/
+example : (ray_box (⟨0, 0, 0⟩ : V3 ℝ) M33.identity ⟨1, 2, 2⟩ ⟨-5, 0, 0⟩ ⟨1, 0, 0⟩).1 = 4 ∧
+    (ray_box (⟨0, 0, 0⟩ : V3 ℝ) M33.identity ⟨1, 2, 2⟩ ⟨-5, 0, 0⟩ ⟨1, 0, 0⟩).2.2 = ⟨-1, 0, 0⟩ := by
+  rw [ray_box_eq]
+  norm_num [ray_sphere_eq, ray_quad_eq, boxAxisK, boxFaceK, boxNormal, boxAll0, _ray_map, M33.mulVec,
+    M33.transpose, M33.identity, V3.sub, V3.dot, rayPt, V3.add, V3.muls, V3.set, V3.zero, V3.fill,
+    minval, sqrt9]
+
+/-- capsule r = 1, h = 2: the ray from (0,0,5) straight down hits the top hemisphere at distance 2 -/
+example : ray_capsule (⟨0, 0, 0⟩ : V3 ℝ) M33.identity ⟨1, 2, 0⟩ ⟨0, 0, 5⟩ ⟨0, 0, -1⟩ = (2, ⟨0, 0, 1⟩) := by
+  rw [ray_capsule_eq]
+  norm_num [ray_sphere_eq, ray_quad_eq, capsSideK, capsCapK, capsUpdK, capsNormal, _ray_map, M33.mulVec,
+    M33.transpose, M33.identity, V3.sub, V3.dot, rayPt, V3.add, V3.muls, V3.normalize, V3.length, V3.zero,
+    V3.fill, minval, sqrt9]
+
+/-- cylinder r = 3, h = 4: the ray from (0,0,10) straight down hits the top cap at distance 6 -/
+example : (ray_cylinder (⟨0, 0, 0⟩ : V3 ℝ) M33.identity ⟨3, 4, 0⟩ ⟨0, 0, 10⟩ ⟨0, 0, -1⟩).1 = 6 := by
+  rw [ray_cylinder_eq]
+  norm_num [ray_sphere_eq, ray_quad_eq, cylCaps, cylSide, cylNormal, _ray_map, M33.mulVec, M33.transpose,
+    M33.identity, V3.sub, V3.dot, V2.dot, rayPt, V3.add, V3.muls, minval, sqrt25]
+
+/-- the identity matrix is orthogonal (hypothesis of 4c) -/
+example : IsOrtho (M33.identity : M33 ℝ) := by
+  constructor <;> apply M33.ext' <;> norm_num [M33.mul, M33.transpose, M33.identity]
 
 end Mjw.Props.C34
